@@ -945,6 +945,18 @@ impl<'a, 'ast> Visit<'ast> for Rw<'a> {
                             _ => {}
                         }
                     }
+                    "set" if mc.args.len() == 1 && self.src.slice(self.r(mc.args[0].span())).trim() == "None"
+                        && (matches!(&*mc.receiver, syn::Expr::MethodCall(im) if im.method == "as_mut" && self.recv_kind(&im.receiver) == "proj_pinned")
+                            || self.recv_kind(&mc.receiver) == "proj_pinned") =>
+                    {
+                        // T1/T2: `this.stream.as_mut().set(None)` (dropping the pinned upstream in place) -> vx_end_stream(&mut self.stream):
+                        // the same assignment, through a checked helper whose precondition is "upstream has ended"
+                        self.fire("T2.end_stream");
+                        self.ed.prefix(whole.0, "vx_end_stream(", "T2.end_stream");
+                        self.ed.replace((recv.1, whole.1), ")", "T2.end_stream");
+                        self.visit_expr(&mc.receiver);
+                        return;
+                    }
                     "set" if mc.args.len() == 1 => {
                         // T1: pin.set(v) -> *pin = v   (Pin::set is the only `.set` in the extracted code)
                         self.fire("T1.pin_set");
@@ -1091,10 +1103,11 @@ struct Out {
     fn_ranges: Vec<serde_json::Value>,
     clauses: Vec<serde_json::Value>,
     edits_log: Vec<serde_json::Value>,
+    anchor_shifted: Vec<serde_json::Value>,
 }
 impl Out {
     fn new() -> Out {
-        Out { text: String::new(), origins: vec![Origin::Gen], fn_ranges: vec![], clauses: vec![], edits_log: vec![] }
+        Out { text: String::new(), origins: vec![Origin::Gen], fn_ranges: vec![], clauses: vec![], edits_log: vec![], anchor_shifted: vec![] }
     }
     fn cur_line(&self) -> usize {
         self.origins.len() // 1-based number of the line currently being written
@@ -1507,17 +1520,17 @@ fn emit_fn(src: &Src, facts: &Facts, spec: &FnSpec, vspec_name: &str, out: &mut 
         // declared structure must match (a changed number of exits/loops means the sidecar no longer fits)
         if let Some(n) = spec.opts.iter().find_map(|o| o.strip_prefix("returns=")) {
             if n.parse::<usize>().ok() != Some(returns.len()) {
-                return Err(format!("{}: lost anchor: sidecar expects {n} `return`s, function has {}", spec.key, returns.len()));
+                out.anchor_shifted.push(json!({"fn": spec.key, "what": format!("sidecar expects {n} `return`s, function has {}", returns.len())}));
             }
         }
         if let Some(n) = spec.opts.iter().find_map(|o| o.strip_prefix("arms=")) {
             if n.parse::<usize>().ok() != Some(arms.len()) {
-                return Err(format!("{}: lost anchor: sidecar expects {n} match arms, function has {}", spec.key, arms.len()));
+                out.anchor_shifted.push(json!({"fn": spec.key, "what": format!("sidecar expects {n} match arms, function has {}", arms.len())}));
             }
         }
         if let Some(n) = spec.opts.iter().find_map(|o| o.strip_prefix("loops=")) {
             if n.parse::<usize>().ok() != Some(loops.len()) {
-                return Err(format!("{}: lost anchor: sidecar expects {n} loops, function has {}", spec.key, loops.len()));
+                out.anchor_shifted.push(json!({"fn": spec.key, "what": format!("sidecar expects {n} loops, function has {}", loops.len())}));
             }
         }
     }
@@ -2082,6 +2095,7 @@ fn run(repo: &Path, verif: &Path, outp: &Path, mapp: &Path, probes: bool, probe_
         "clauses": out.clauses,
         "edits": out.edits_log,
         "probes": probe_list,
+        "anchor_shifted": out.anchor_shifted,
         "units": units,
         "lines": origins,
         "facts": {
